@@ -8,8 +8,8 @@ def plan(tier, seed):
         ints = [H("c04::r1_%s_3" % t, "complete Ok(v) <=> partial Ok((v,len)); partial Ok((v,n)),n>0 => complete(s[..n])==Ok(v)", "arbitrary bytes len<=3") for t in ("u8", "i8", "i32", "u64")]
         groups.append(KGroup("D", ints, timeout=900, jobs=8, mem_gb=14, label="integers"))
         fl = [H("pf::p2_f32_4", "float partial/complete relation, numerics stubbed deterministically", "arbitrary bytes len<=4")]
-        groups.append(KGroup("D", fl, timeout=1500, jobs=2, mem_gb=14, stubbing=True, label="floats"))
-        groups.append(KGroup("F", [H("c13::seprel_f64_t_4", "same relation under a trailing-separator format", "alphabet {+-019._ex}, len<=4")], timeout=2400, jobs=1, mem_gb=14, stubbing=True, label="floats, separator format"))
+        groups.append(KGroup("D", fl, timeout=850, jobs=2, mem_gb=14, stubbing=True, label="floats"))
+        groups.append(KGroup("F", [H("c13::seprel_f64_t_3", "same relation under a trailing-separator format", "alphabet {+-019._ex}, len<=3")], timeout=800, jobs=1, mem_gb=14, stubbing=True, label="floats, separator format"))
     else:
         ints = [H("c04::r1_%s_4" % t, "relation", "arbitrary bytes len<=4") for t in INT_TYPES]
         groups.append(KGroup("D", ints, timeout=7200, jobs=10, mem_gb=12, label="integers"))
